@@ -132,14 +132,60 @@ def _value_case(draw, gen: int):
         z = draw(st.sampled_from(zs))
         calls += [["zone_damper", z, p] for p in range(-5, 106)]
         calls += [["zone_temp", z, draw(st.integers(1000, 3500)) / 100.0] for _ in range(5)]
+        # the console's report changes during the session: what is admissible follows the *latest* report
+        for _ in range(draw(st.integers(1, 4))):
+            calls.append(["push_zone", draw(con.zone_state_strategy(gen, z))])
+            calls += [["zone_power", z, p] for p in cmdrun.ZPOWERS]
+            calls.append(["zone_temp", z, draw(st.integers(1000, 3500)) / 100.0])
+    for _ in range(draw(st.integers(1, 3))):
+        calls.append(["push_ac", draw(con.ac_state_strategy(gen, n))])
+        calls.append(["push_timer", n, draw(con.timer_strategy)])
+        calls += [["ac_temp", n, t] for t in temps[:6]]
+        calls.append(["timer_time", n, draw(st.sampled_from(cmdrun.TIMERS)), draw(st.integers(0, 23)), draw(st.integers(0, 59))])
+        calls.append(["timer_clear", n, draw(st.sampled_from(cmdrun.TIMERS))])
     return {"mode": "values", "inst": inst, "state": state, "calls": calls}
 
 
+def _push(x, state, c):
+    """The console reports a new status (the client's view of what is admissible must follow it)."""
+    w = x.rig.console.w
+    tr = x.rig.net.current
+    x.done.append(c)
+    if c[0] == "push_zone":
+        rec = c[1]
+        state["zones"][str(rec["number"])] = dict(rec)
+        x.rig.console.state["zones"][str(rec["number"])] = dict(rec)
+        x.rig.console.feed(tr, w.zone_status([rec]), label="push:zone_status")
+    elif c[0] == "push_ac":
+        rec = c[1]
+        state["acs"][str(rec["number"])] = dict(rec)
+        x.rig.console.state["acs"][str(rec["number"])] = dict(rec)
+        x.rig.console.feed(tr, w.ac_status([rec]), label="push:ac_status")
+    else:
+        n, t = c[1], c[2]
+        state["timers"][str(n)] = t
+        x.rig.console.state["timers"][str(n)] = t
+        full = {str(k): (t if k == n else state["timers"].get(str(k), {"on": {"disabled": False, "hour": 0, "minute": 0},
+                                                                   "off": {"disabled": False, "hour": 0, "minute": 0}}))
+                for k in (range(4) if x.gen == 4 else [n])}
+        for k, v in full.items():
+            if k in state["timers"]:
+                state["timers"][k] = v
+        x.rig.console.feed(tr, w.timer_status(full), label="push:timer_status")
+    x.rig.loop.settle()
+
+
 def run_values(case, stats: Stats | None):
-    inst, state = case["inst"], case["state"]
+    import copy
+    inst, state = case["inst"], copy.deepcopy(case["state"])
     x = cmdrun.CmdRig(ID, inst, state)
     try:
         for c in case["calls"]:
+            if c[0].startswith("push_"):
+                _push(x, state, c)
+                if stats is not None:
+                    stats.classes["status-push"] += 1
+                continue
             try:
                 tags = x.call(c)
             except Violation as v:
@@ -181,7 +227,7 @@ def shards(tier: str):
 
 
 def floors(tier: str):
-    return {"refused": 2000, "accepted": 2000, "temp-outside-limits": 100, "timer-other-enabled": 50, "call:zone_damper": 1000}
+    return {"refused": 2000, "accepted": 2000, "temp-outside-limits": 100, "timer-other-enabled": 50, "call:zone_damper": 1000, "status-push": 100}
 
 
 def run_shard(spec, seed: int, tier: str):
